@@ -28,7 +28,86 @@ def registry():
     reg['havoc_types'] = dict(AC.HAVOC_TYPES)
     reg['classes'][collections.defaultdict] = \
         lambda I, a, k: VDict(default=a[0] if a else None)
+    reg['getattr'] = lib.context_getattr_hook
     return reg
+
+
+def registry_set():
+    """Registry for callers of _check_capacity_exceeded: the callee is used
+    through its contract only."""
+    from placement.objects import consumer as consumer_obj
+    reg = registry()
+    reg['loops'].update(AC.SET_LOOPS)
+    reg['havoc_types'].update(AC.SET_HAVOC_TYPES)
+    reg['calls'][id(alloc_obj._check_capacity_exceeded)] = \
+        AC.check_capacity_contract
+    reg['calls'][id(consumer_obj.delete_consumers_if_no_allocations)] = \
+        AC.delete_consumers_if_no_allocations_contract
+    return reg
+
+
+def setup_set(I):
+    ctx, allocs = setup_allocs(I)
+    n = allocs.len
+    j = z3.Int('j!preset')
+    a = z3.Select(allocs.arr, j)
+    cons = z3.Select(I.fld(classes.ALLOC, 'consumer'), a)
+    rp = z3.Select(I.fld(classes.ALLOC, 'resource_provider'), a)
+    I.ex.hyp(ops.forall([j], z3.Implies(z3.And(j >= 0, j < n), z3.And(
+        z3.Not(z3.Select(I.fld_none('Consumer', 'id'), cons)),
+        z3.Not(z3.Select(I.fld_none('Consumer', 'uuid'), cons)),
+        z3.Not(z3.Select(I.fld_none('Consumer', 'generation'), cons)),
+        z3.Not(z3.Select(I.fld_none(classes.RP, 'generation'), rp)))),
+        patterns=[z3.Select(allocs.arr, j)]))
+    return ctx, allocs
+
+
+SET_RAISES = (exception.InvalidInventory, exception.ResourceClassNotFound,
+              exception.ConcurrentUpdateDetected)
+
+
+def script_set(ex):
+    I = Interp(ex, registry_set())
+    ctx, allocs = setup_set(I)
+    db0 = I.db.snapshot()
+    inv0 = I.db.tables['inventories']
+    usage0 = I.db.usage
+    try:
+        I.call(alloc_obj._set_allocations, [ctx, allocs], {})
+    except PyRaise as pr:
+        ex.oblige('C01.set.raises.class', issubclass(pr.exc.cls, SET_RAISES),
+                  'C', {'raised': pr.exc.cls.__name__, 'args': repr(pr.exc.args)})
+        # the transaction was rolled back: nothing changed
+        same = all(I.db.tables[t].exists is db0.tables[t].exists and
+                   all(I.db.tables[t].data[c] is db0.tables[t].data[c]
+                       for c in db0.tables[t].data)
+                   for t in db0.tables) and I.db.usage is db0.usage
+        ex.oblige('C01.set.raises.unchanged', same, 'C')
+        return
+    db = I.db
+    n = allocs.len
+    psum, ppos = AC.psum_fns(I)
+    ps = sort_of(PAIR)
+    k = z3.Const('k!setpost', ps)
+    j = z3.Int('j!setpost')
+    rpid, uuid, rc, used = AC.alloc_terms(I, allocs, j)
+    inv = db.tables['inventories']
+    ex.oblige('C01.set.post.inventories_untouched',
+              inv.exists is inv0.exists and
+              all(inv.data[c] is inv0.data[c] for c in inv0.data), 'C')
+    ex.oblige('C01.set.post.capacity', ops.forall([k], z3.Implies(
+        ppos(n, k), z3.And(z3.Select(inv.exists, k),
+                           AC.capacity_ok(db, k, 0)))), 'C')
+    ex.oblige('C01.set.post.units', ops.forall([j], z3.Implies(
+        z3.And(j >= 0, j < n, used > 0),
+        z3.And(z3.Select(inv.exists, ps.mk(rpid, rc)),
+               AC.units_ok(db, ps.mk(rpid, rc), used)))), 'C')
+    ex.oblige('C01.set.post.never_grows_elsewhere', ops.forall([k], z3.Implies(
+        z3.Not(ppos(n, k)),
+        z3.Select(db.usage, k) <= z3.Select(usage0, k))), 'C')
+    ex.oblige('C01.set.post.exact', ops.forall([k],
+              z3.Select(db.usage, k) == z3.Select(I.ghost['set.usage_d'], k)
+              + psum(n, k)), 'C')
 
 
 def setup_allocs(I, strengthen=None):
@@ -67,25 +146,8 @@ def setup_allocs(I, strengthen=None):
 
 
 def check_post(I, allocs, n, res, name='C01.check.sound'):
-    db = I.db
-    psum, ppos = AC.psum_fns(I)
-    ps = sort_of(PAIR)
-    k = z3.Const('k!post', ps)
-    j = z3.Int('j!post')
-    rpid, uuid, rc, used = AC.alloc_terms(I, allocs, j)
-    inv = db.tables['inventories']
-    I.ex.oblige(name + '.capacity', ops.forall([k], z3.Implies(
-        ppos(n, k), z3.And(z3.Select(inv.exists, k),
-                           AC.capacity_ok(db, k, psum(n, k))))), 'C')
-    I.ex.oblige(name + '.units', ops.forall([j], z3.Implies(
-        z3.And(j >= 0, j < n, used > 0),
-        z3.And(z3.Select(inv.exists, ps.mk(rpid, rc)),
-               AC.units_ok(db, ps.mk(rpid, rc), used)))), 'C')
-    I.ex.oblige(name + '.providers', ops.forall([j], z3.Implies(
-        z3.And(j >= 0, j < n),
-        z3.And(z3.Select(res.dom, uuid),
-               z3.Select(I.fld(classes.RP, 'uuid'),
-                         z3.Select(res.val, uuid)) == uuid))), 'C')
+    for cl, f in AC.check_ensures(I, allocs, res).items():
+        I.ex.oblige('%s.%s' % (name, cl), f, 'C')
 
 
 ALLOWED_RAISES = (exception.InvalidInventory,
@@ -136,6 +198,11 @@ def build(tier, seed):
     chk = runner.Check('C01', tier, seed)
     chk.script('check_capacity_exceeded', script_check,
                ['placement/objects/allocation.py:_check_capacity_exceeded'])
+    chk.script('set_allocations', script_set,
+               ['placement/objects/allocation.py:_set_allocations',
+                'placement/objects/allocation.py:_delete_allocations_for_consumer',
+                'placement/objects/resource_provider.py:ResourceProvider.increment_generation',
+                'placement/objects/consumer.py:Consumer.increment_generation'])
     chk.canary('canary.check.capacity', canary_check)
     chk.replayer('C01.', replay_c01)
     chk.assume('A-int', 'A-real', 'A-sql', 'A-sum', 'A-key', 'A-heap',
